@@ -168,8 +168,30 @@ impl<'a> Directory<'a> {
 	///
 	/// Simply walks the filesystem checking all references are valid.
 	pub fn fsck(&self) -> Result<()> {
-		self.entries().try_for_each(|e| e.fsck())
+		self.fsck_walk(0, &mut fsck_budget(self.resources))
 	}
+	fn fsck_walk(&self, depth: u32, budget: &mut usize) -> Result<()> {
+		// A directory nested this deep contains itself
+		if depth >= FSCK_MAX_DEPTH {
+			return Err(Error::Insanity);
+		}
+		for e in self.entries() {
+			// A walk which visits more entries than fit in the section visits some of them again and again
+			if *budget == 0 {
+				return Err(Error::Insanity);
+			}
+			*budget -= 1;
+			e.fsck_walk(depth, budget)?;
+		}
+		Ok(())
+	}
+}
+
+/// Directories nested deeper than this fail the consistency check (same limit as the tree formatter).
+const FSCK_MAX_DEPTH: u32 = 32;
+/// The number of directory entries which fit in the section bounds the work of the consistency check.
+fn fsck_budget(resources: Resources<'_>) -> usize {
+	resources.section.len() / mem::size_of::<IMAGE_RESOURCE_DIRECTORY_ENTRY>()
 }
 #[rustfmt::skip]
 impl<'a> fmt::Debug for Directory<'a> {
@@ -382,9 +404,12 @@ impl<'a> DirectoryEntry<'a> {
 	///
 	/// Simply walks the filesystem checking all references are valid.
 	pub fn fsck(&self) -> Result<()> {
+		self.fsck_walk(0, &mut fsck_budget(self.resources))
+	}
+	fn fsck_walk(&self, depth: u32, budget: &mut usize) -> Result<()> {
 		self.name()?;
 		match self.entry()? {
-			Entry::Directory(dir) => dir.fsck(),
+			Entry::Directory(dir) => dir.fsck_walk(depth + 1, budget),
 			Entry::DataEntry(data) => data.fsck(),
 		}
 	}
